@@ -345,7 +345,13 @@ class Interp:
             interp.handler_calls.append(exc)
             return {"truthy": True, "falsy": False, "none": None}[hk]
 
-        kwargs = {} if hk == "absent" else {"exception_handler": handler}
+        handler_obj: Any = handler
+        if len(case["ops"]) % 2:
+            class _Handler:  # a callable object is as good a handler as a function
+                def __call__(self, exc: Exception) -> Any:
+                    return handler(exc)
+            handler_obj = _Handler()
+        kwargs = {} if hk == "absent" else {"exception_handler": handler_obj}
         cancelled_cls = anyio.get_cancelled_exc_class()
         caught: BaseException | None = None
 
